@@ -95,7 +95,9 @@ pub fn gen_c07(out: &mut Out, rng: &mut Rng, thorough: bool) {
         };
         let tail = if rng.chance(1, 3) { ",e" } else { "" };
         let w = if rng.chance(1, 5) { " w=a1,p,a3,a2,p,a100" } else { "" };
-        monitor_line(out, &format!("srv {kind} svc={}{w} r={evs}{tail}", svc_tok(&s.svc)));
+        // every eighth connection is served by a service typed on the plain `Request`
+        let ty = if i % 8 == 5 { " svcty=req" } else { "" };
+        monitor_line(out, &format!("srv {kind} svc={}{ty}{w} r={evs}{tail}", svc_tok(&s.svc)));
     }
     // short sequences under every fragmentation
     for kind in ["tcp", "rtu"] {
@@ -179,6 +181,14 @@ pub fn mon_c07(out: &mut Out, l: &str, r: &str) {
     let Some(svc) = p_list(field("svc", fields), Svc::parse) else { return };
     let Some(frames) = split_frames(kind, &pe.data) else { return };
     let Some(mut expect) = expected_log(kind, &frames, &svc) else { return };
+    if field("svcty", fields) == "req" {
+        // a service typed on the plain request does not see the unit / slave id
+        for e in expect.iter_mut() {
+            if let Some(rest) = e.strip_prefix("call ") {
+                *e = format!("call ??{}", &rest[2..]);
+            }
+        }
+    }
     // write faults are C14's business
     if field("w", fields).contains('x') || field("w", fields).contains('z') {
         return;
